@@ -244,11 +244,14 @@ def readCell : Cell → Bytes → Option Cell
   | .qual _, t => some (.qual (t.map (· - 33)))
 
 def readRow (shape : Row) (fields : List Bytes) : Option Row :=
-  omap (fun p : Cell × Bytes => readCell p.1 p.2) (List.zip shape fields)
+  if shape.length = fields.length then omap (fun p : Cell × Bytes => readCell p.1 p.2) (List.zip shape fields)
+  else none            -- a record with more or fewer fields than the schema has columns is not read
 
 /-- the reference reader of C02: complete lines, split on TAB, each field read by its column's kind -/
 def readTable (shape : List Row) (bs : Bytes) : Option (List Row) :=
-  omap (fun p : Row × List Bytes => readRow p.1 p.2) (List.zip shape ((linesOf bs).map (splitOn 9)))
+  if shape.length = (linesOf bs).length then
+    omap (fun p : Row × List Bytes => readRow p.1 p.2) (List.zip shape ((linesOf bs).map (splitOn 9)))
+  else none            -- surplus or missing lines are not dropped silently
 
 theorem formatInt_free (i : Int) (x : Nat) (hx : x = 9 ∨ x = 10 ∨ x = 44) : x ∉ formatInt i := by
   intro hm
@@ -340,47 +343,74 @@ bytes the writer produced with the reference reader gives the table back, cell f
 theorem roundtrip (n : Nat) (hn : 0 < n) (rows : List Row) (hrect : ∀ r ∈ rows, r.length = n)
     (hok : ∀ r ∈ rows, ∀ c ∈ r, cellOK c) :
     readTable rows (dumpDelimited n rows) = some rows := by
-  unfold readTable
-  rw [dump_canonical n hn rows hrect, roundtrip_records]
-  · apply omap_zip_map
+  have hne : ∀ r ∈ rows.map (·.map cellText), r ≠ [] := by
     intro r hr
-    unfold readRow
-    apply omap_zip_map
-    intro c _
-    exact readCell_cellText c (fun _ _ => trivial)
-  · intro r hr
     simp only [List.mem_map] at hr
     obtain ⟨r', hr', rfl⟩ := hr
     have := hrect r' hr'
     intro h0
     have : r'.length = 0 := by simpa using congrArg List.length h0
     omega
-  · intro r hr f hf
+  have hfree : ∀ r ∈ rows.map (·.map cellText), ∀ f ∈ r, 9 ∉ f ∧ 10 ∉ f := by
+    intro r hr f hf
     simp only [List.mem_map] at hr
     obtain ⟨r', hr', rfl⟩ := hr
     simp only [List.mem_map] at hf
     obtain ⟨c, hc, rfl⟩ := hf
     exact cellText_free c (hok r' hr' c hc)
+  have hrec := roundtrip_records (rows.map (·.map cellText)) hne hfree
+  have hlen : rows.length = (linesOf (dumpDelimited n rows)).length := by
+    have := congrArg List.length hrec
+    rw [dump_canonical n hn rows hrect]
+    simpa using this.symm
+  unfold readTable
+  rw [if_pos hlen, dump_canonical n hn rows hrect, hrec]
+  apply omap_zip_map
+  intro r hr
+  unfold readRow
+  rw [if_pos (by simp)]
+  apply omap_zip_map
+  intro c _
+  exact readCell_cellText c (fun _ _ => trivial)
 
 /-- the characters of Python's `str(float)` for a finite value (digits, sign, point, exponent mark) -/
 def floatChar (b : Nat) : Bool := isDigit b || b == 45 || b == 43 || b == 46 || b == 101
 
 /-- **float_partial.** What is proved about a float cell. Its text — produced by Python's `str(float)`, an external
-function, and consisting of `floatChar`s only — contains neither TAB nor newline, so the cell is a legal text cell
-of `roundtrip`/`dump_canonical`: it is written verbatim into its own field, and the reference reader hands exactly
-that text back for that cell (second conjunct; for whole tables: `roundtrip`). NOT proved here, only corresponded
-(byte-exact against Python `repr` on the way out, value within 1e-12 on the way back): that `str(float)` picks a
-decimal text whose value is the float (Python's repr guarantee) and that `str_to_float` of such a text is the
-float to printing precision (the conversion itself is C18's). -/
+function, and consisting of `floatChar`s only — contains neither TAB nor newline, so it is a legal text cell; and in
+whatever column of a record of otherwise legal cells it stands, the record is written and read back (strict reference
+reader) with exactly that text in that column. NOT proved here, only corresponded (byte-exact against Python `repr` on
+the way out, value within 1e-12 on the way back): that `str(float)` picks a decimal text whose value is the float
+(Python's repr guarantee) and that `str_to_float` of such a text is the float to printing precision (C18's). -/
 theorem float_partial (t : Bytes) (h : t.all floatChar = true) :
-    cellOK (Cell.text t) ∧ readCell (Cell.text t) (cellText (Cell.text t)) = some (Cell.text t) := by
-  refine ⟨?_, rfl⟩
+    cellOK (Cell.text t) ∧
+    ∀ (pre post : Row), (∀ c ∈ pre ++ post, cellOK c) →
+      readTable [pre ++ Cell.text t :: post] (dumpDelimited (pre.length + 1 + post.length) [pre ++ Cell.text t :: post])
+        = some [pre ++ Cell.text t :: post] := by
   have hb : ∀ b ∈ t, b ≠ 9 ∧ b ≠ 10 := by
     intro b hb
     have := (List.all_eq_true.mp h) b hb
     simp only [floatChar, isDigit, Bool.or_eq_true, Bool.and_eq_true, decide_eq_true_eq, beq_iff_eq] at this
     omega
-  exact ⟨fun h9 => (hb 9 h9).1 rfl, fun h10 => (hb 10 h10).2 rfl⟩
+  have hok : cellOK (Cell.text t) := ⟨fun h9 => (hb 9 h9).1 rfl, fun h10 => (hb 10 h10).2 rfl⟩
+  refine ⟨hok, ?_⟩
+  intro pre post hpp
+  apply roundtrip _ (by omega)
+  · intro r hr
+    simp only [List.mem_singleton] at hr
+    subst hr
+    simp only [List.length_append, List.length_cons]
+    omega
+  · intro r hr c hc
+    simp only [List.mem_singleton] at hr
+    subst hr
+    simp only [List.mem_append, List.mem_cons] at hc
+    rcases hc with hc | rfl | hc
+    · exact hpp c (by simp [hc])
+    · exact hok
+    · exact hpp c (by simp [hc])
+
+example : ∃ t : Bytes, t.all floatChar = true ∧ t = [45, 49, 46, 53, 101, 45, 48, 55] := ⟨_, by decide, rfl⟩
 
 /-- VCF: POS is written +1 and the reader's shift (tabulated from the code, Gen/C02) takes it back -/
 theorem vcf_pos_roundtrip (c0 : Cell) (p : Int) (rest : Row) :
@@ -510,9 +540,12 @@ theorem runAll_append_inv (hdr : Bytes) (dump : List Row → Bytes) (hadd : Addi
     simp [List.append_assoc]
 
 /-- **sessions_compose.** Any sequence of writers on one target — the first opened for writing or appending (to a
-new or empty file), all later ones appending; plain or gzip; each fed by successive `write` calls or by one stream
+new or empty file), all later ones appending; each fed by successive `write` calls or by one stream
 of chunks; any split of the rows, empty pieces included — leaves: the header exactly once in front (iff at least
-one `write` call was made at all), followed by ONE dump of the concatenated table. -/
+one `write` call was made at all), followed by ONE dump of the concatenated table. (The target is modelled as a byte
+string: for a gzip target this is the decompressed content, by the stated external assumption on `gzip.open`; the
+shipped rule that told plain from gzip targets is `runAllOld`/`sessionOld_unsound`.) `dump` is any record-by-record
+serialiser; for the writer models of the formats see `sessions_compose_writer`. -/
 theorem sessions_compose (hdr : Bytes) (dump : List Row → Bytes) (hadd : Additive dump) (ss : List Sess)
     (htail : ∀ s ∈ ss.tail, s.mode = Mode.append) :
     runAll hdr dump [] ss
@@ -1364,5 +1397,253 @@ example : (match C02.parseDelimited Gen.C02.bed3 (dumpDelimited 3 [[Cell.text [9
 -- sessions_truncate / writes_chunking_independent: hypotheses are satisfiable
 example : (⟨Mode.write, false, [[]]⟩ : Sess).mode = Mode.write := rfl
 example : ([[[Cell.int 1]], [[Cell.int 2]]] : List (List Row)).flatten = ([[[Cell.int 1], [Cell.int 2]]] : List (List Row)).flatten := by decide
+
+/-! ### the writers of the formats: canonical, and composable on the tables they are specified for -/
+
+def Rect (n : Nat) (rows : List Row) : Prop := ∀ r ∈ rows, r.length = n
+
+instance (n : Nat) (rows : List Row) : Decidable (Rect n rows) := by unfold Rect; exact inferInstance
+
+/-- the tables a format's writer is specified for: FASTQ records have 3 cells, two-line FASTA records 2, the records of
+a delimited table (after the format's `prepRow`) all have the same number `n ≥ 1` of cells; wrapped FASTA: any -/
+def WF (fmt : String) (rows : List Row) : Prop :=
+  if fmt = "fasta" then True
+  else if fmt = "fastq" then Rect 3 rows
+  else if fmt = "fasta2" then Rect 2 rows
+  else ∃ n, 0 < n ∧ Rect n (prep fmt rows)
+
+theorem Rect_sub {n : Nat} {rows sub : List Row} (h : Rect n rows) (hs : ∀ r ∈ sub, r ∈ rows) : Rect n sub :=
+  fun r hr => h r (hs r hr)
+
+theorem WF_sub (fmt : String) (rows sub : List Row) (h : WF fmt rows) (hs : ∀ r ∈ sub, r ∈ rows) : WF fmt sub := by
+  unfold WF at h ⊢
+  split
+  · trivial
+  · split
+    · rw [if_neg (by assumption), if_pos (by assumption)] at h
+      exact Rect_sub h hs
+    · split
+      · rw [if_neg (by assumption), if_neg (by assumption), if_pos (by assumption)] at h
+        exact Rect_sub h hs
+      · rw [if_neg (by assumption), if_neg (by assumption), if_neg (by assumption)] at h
+        obtain ⟨n, hn, hr⟩ := h
+        refine ⟨n, hn, ?_⟩
+        intro r hr'
+        unfold prep at hr' hr
+        obtain ⟨r0, hr0, rfl⟩ := List.mem_map.mp hr'
+        exact hr _ (List.mem_map.mpr ⟨r0, hs r0 hr0, rfl⟩)
+
+theorem joinFields2 (rows : List Row) (h : Rect 2 rows) :
+    joinFields 62 [1, 0] (rows.map (·.map cellText)) = (entriesOf rows).flatMap (fun e => 62 :: e.1 ++ [10] ++ e.2 ++ [10]) := by
+  induction rows with
+  | nil => rfl
+  | cons r rest ih =>
+    have hr : r.length = 2 := h r (by simp)
+    obtain ⟨a, b, rfl⟩ : ∃ a b, r = [a, b] := by
+      match r, hr with
+      | [a, b], _ => exact ⟨a, b, rfl⟩
+    have ih' := ih (fun r' hr' => h r' (by simp [hr']))
+    simp only [joinFields, entriesOf, List.map_cons, List.flatMap_cons] at ih' ⊢
+    rw [ih']
+    simp
+
+/-- **dumpModel_eq_dumpCanon.** On the tables it is specified for, the bytes of every format's writer model — run
+with the constants measured on the package — are the canonical serialisation of the format. -/
+theorem dumpModel_eq_dumpCanon (fmt : String) (rows : List Row) (h : WF fmt rows) :
+    dumpModel Gen.C03.consts fmt rows = dumpCanon fmt rows := by
+  unfold WF at h
+  unfold dumpModel dumpCanon
+  have hW : Gen.C03.consts.fastaWidth = 80 := gen_fasta_wrap.1
+  have hq : Gen.C03.consts.fastqMarker = 64 := gen_fastq.1
+  have ho : Gen.C03.consts.fastqOffsets = [1, 0, 0, 0] := gen_fastq.2.1
+  have hm : Gen.C03.consts.fastaMarker = 62 := gen_fastq.2.2.2
+  split
+  · rw [hW]
+    split
+    · rename_i hr; subst hr; rfl
+    · exact fasta_layout 80 (by decide) _
+  · split
+    · rw [if_neg (by assumption), if_pos (by assumption)] at h
+      rw [hq, ho]
+      exact fastq_layout rows h
+    · split
+      · rw [if_neg (by assumption), if_neg (by assumption), if_pos (by assumption)] at h
+        rw [hm]
+        exact joinFields2 rows h
+      · rw [if_neg (by assumption), if_neg (by assumption), if_neg (by assumption)] at h
+        obtain ⟨n, hn, hr⟩ := h
+        simp only
+        cases hp : prep fmt rows with
+        | nil => simp [dumpDelimited, dumpSpec]
+        | cons r0 rest =>
+          rw [hp] at hr
+          have h0 : r0.length = n := hr r0 (by simp)
+          simp only [List.head?_cons, Option.map_some, Option.getD_some, h0]
+          exact dump_canonical n hn _ hr
+
+theorem dumpCanon_additive (fmt : String) : Additive (dumpCanon fmt) := by
+  constructor
+  · unfold dumpCanon
+    split
+    · rfl
+    · split
+      · rfl
+      · split <;> rfl
+  · intro a b
+    unfold dumpCanon
+    split
+    · simp [fastaSpec, entriesOf]
+    · split
+      · simp [fastqSpec]
+      · split
+        · simp [entriesOf]
+        · simp [prep, dumpSpec]
+
+/-- the column count of the delimited serialiser comes from the first record, so — as a function on ALL tables — it is
+not additive: `Additive` is only available for the canonical serialisation, and for the writer on `WF` tables -/
+theorem dumpModel_not_additive : ¬ Additive (dumpModel Gen.C03.consts "bed3") := by
+  intro h
+  have := h.2 [[Cell.text [97]]] [[Cell.text [98], Cell.text [99]]]
+  revert this
+  decide
+
+theorem writeAll_congr (hdr : Bytes) (d1 d2 : List Row → Bytes) (pa : Bool) (st : WState) (ts : List (List Row))
+    (h : ∀ t ∈ ts, d1 t = d2 t) : writeAll hdr d1 pa st ts = writeAll hdr d2 pa st ts := by
+  induction ts generalizing st with
+  | nil => rfl
+  | cons t rest ih =>
+    have ht := h t (by simp)
+    have hstep : writeStep hdr d1 pa st t = writeStep hdr d2 pa st t := by
+      unfold writeStep
+      simp only [ht]
+    simp only [writeAll, hstep]
+    rw [ih _ (fun t' ht' => h t' (by simp [ht']))]
+
+theorem runAll_congr (hdr : Bytes) (d1 d2 : List Row → Bytes) (acc : Bytes) (ss : List Sess)
+    (h : ∀ s ∈ ss, ∀ t ∈ s.pieces, d1 t = d2 t) : runAll hdr d1 acc ss = runAll hdr d2 acc ss := by
+  induction ss generalizing acc with
+  | nil => rfl
+  | cons s rest ih =>
+    have hs : runSess hdr d1 acc s = runSess hdr d2 acc s := by
+      unfold runSess writeStream
+      simp only [writeAll_congr hdr d1 d2 false _ s.pieces (h s (by simp))]
+    simp only [runAll, hs]
+    exact ih _ (fun s' hs' => h s' (by simp [hs']))
+
+theorem mem_flatten_calls (ss : List Sess) (s : Sess) (hs : s ∈ ss) (t : List Row) (ht : t ∈ s.pieces) :
+    ∀ r ∈ t, r ∈ (ss.flatMap Sess.calls).flatten := by
+  intro r hr
+  simp only [List.mem_flatten, List.mem_flatMap]
+  exact ⟨t, ⟨s, hs, ht⟩, hr⟩
+
+/-- **sessions_compose_writer.** For every format and every sequence of writers on one target (first 'w' or 'a', later
+ones 'a'; `write` calls or streams; any split, empty pieces included) whose rows taken together form a table the
+format's writer is specified for: the bytes the WRITER MODEL leaves are the header exactly once in front (iff a call
+was made) followed by the canonical serialisation of the concatenated table — which is also what ONE call of the
+writer model on the concatenated table produces. -/
+theorem sessions_compose_writer (fmt : String) (hdr : Bytes) (ss : List Sess)
+    (htail : ∀ s ∈ ss.tail, s.mode = Mode.append) (hwf : WF fmt (ss.flatMap Sess.calls).flatten) :
+    runAll hdr (dumpModel Gen.C03.consts fmt) [] ss
+      = (if ss.flatMap Sess.calls = [] then [] else hdr) ++ dumpCanon fmt (ss.flatMap Sess.calls).flatten ∧
+    dumpCanon fmt (ss.flatMap Sess.calls).flatten = dumpModel Gen.C03.consts fmt (ss.flatMap Sess.calls).flatten := by
+  constructor
+  · rw [runAll_congr hdr (dumpModel Gen.C03.consts fmt) (dumpCanon fmt) [] ss (fun s hs t ht =>
+      dumpModel_eq_dumpCanon fmt t (WF_sub fmt _ t hwf (mem_flatten_calls ss s hs t ht)))]
+    exact sessions_compose hdr (dumpCanon fmt) (dumpCanon_additive fmt) ss htail
+  · exact (dumpModel_eq_dumpCanon fmt _ hwf).symm
+
+/-- **writes_compose_writer.** One writer opened with 'w', any cut of a specified table into successive calls. -/
+theorem writes_compose_writer (fmt : String) (hdr : Bytes) (e : Bool) (ts : List (List Row)) (hwf : WF fmt ts.flatten) :
+    writeAll hdr (dumpModel Gen.C03.consts fmt) false (initState .write e) ts
+      = (if ts = [] then [] else hdr) ++ dumpModel Gen.C03.consts fmt ts.flatten := by
+  rw [writeAll_congr hdr (dumpModel Gen.C03.consts fmt) (dumpCanon fmt) false _ ts (fun t ht =>
+      dumpModel_eq_dumpCanon fmt t (WF_sub fmt _ t hwf (fun r hr => List.mem_flatten.mpr ⟨t, ht, hr⟩))),
+    writes_compose hdr (dumpCanon fmt) (dumpCanon_additive fmt) e ts, dumpModel_eq_dumpCanon fmt _ hwf]
+
+-- non-vacuity: a BED6-like table cut into two calls, a VCF table (POS shifted), a FASTQ table
+example : WF "bed3" [[Cell.text [99], Cell.int 1, Cell.int 5], [Cell.text [100], Cell.int 7, Cell.int 9]] :=
+  by unfold WF; simp only [show ("bed3" = "fasta") = False by decide, show ("bed3" = "fastq") = False by decide,
+       show ("bed3" = "fasta2") = False by decide, if_false]; exact ⟨3, by decide, by decide⟩
+example : WF "fastq" [[Cell.text [114], Cell.text [65], Cell.qual [40]]] := by
+  unfold WF; simp only [show ("fastq" = "fasta") = False by decide, if_false, if_true]; decide
+
+
+theorem shiftPos_inv (r : Row) : shiftPos (-1) (shiftPos 1 r) = r := by
+  match r with
+  | [] => rfl
+  | [_] => rfl
+  | c0 :: Cell.int p :: rest => simp only [shiftPos]; congr 2; congr 1; omega
+  | _ :: Cell.text _ :: _ => rfl
+  | _ :: Cell.ints _ :: _ => rfl
+  | _ :: Cell.qual _ :: _ => rfl
+
+theorem shiftPos_ok (d : Int) (r : Row) (h : ∀ c ∈ r, cellOK c) : ∀ c ∈ shiftPos d r, cellOK c := by
+  match r with
+  | [] => exact h
+  | [_] => exact h
+  | c0 :: Cell.int p :: rest =>
+    intro c hc
+    simp only [shiftPos, List.mem_cons] at hc
+    rcases hc with rfl | rfl | hc
+    · exact h _ (by simp)
+    · trivial
+    · exact h c (by simp [hc])
+  | _ :: Cell.text _ :: _ => exact h
+  | _ :: Cell.ints _ :: _ => exact h
+  | _ :: Cell.qual _ :: _ => exact h
+
+/-- **vcf_roundtrip.** VCF through write and read: for every table of legal cells whose records (position shifted by
+the writer) all have the same `n ≥ 1` cells, the strict reference reader applied to the bytes of the VCF writer model,
+followed by the reader's position shift (tabulated from the running code, `Gen.C02.vcfPosShift`), returns the table —
+positions included, every other cell untouched. -/
+theorem vcf_roundtrip (rows : List Row) (n : Nat) (hn : 0 < n) (hrect : Rect n (prep "vcf" rows))
+    (hok : ∀ r ∈ rows, ∀ c ∈ r, cellOK c) :
+    (readTable (prep "vcf" rows) (dumpModel Gen.C03.consts "vcf" rows)).map (·.map (shiftPos Gen.C02.vcfPosShift))
+      = some rows := by
+  have hwf : WF "vcf" rows := by
+    unfold WF
+    simp only [show ("vcf" = "fasta") = False by decide, show ("vcf" = "fastq") = False by decide,
+      show ("vcf" = "fasta2") = False by decide, if_false]
+    exact ⟨n, hn, hrect⟩
+  have hcanon : dumpModel Gen.C03.consts "vcf" rows = dumpDelimited n (prep "vcf" rows) := by
+    rw [dumpModel_eq_dumpCanon "vcf" rows hwf, dump_canonical n hn _ hrect]
+    simp [dumpCanon]
+  have hok' : ∀ r ∈ prep "vcf" rows, ∀ c ∈ r, cellOK c := by
+    intro r hr
+    unfold prep at hr
+    obtain ⟨r0, hr0, rfl⟩ := List.mem_map.mp hr
+    simp only [prepRow, show isVcf "vcf" = true by decide, if_true]
+    exact shiftPos_ok 1 r0 (hok r0 hr0)
+  rw [hcanon, roundtrip n hn _ hrect hok', C02.gen_shifts.1]
+  simp only [Option.map_some, Option.some.injEq, prep, List.map_map]
+  conv => rhs; rw [← List.map_id rows]
+  apply List.map_congr_left
+  intro r _
+  simp only [Function.comp, prepRow, show isVcf "vcf" = true by decide, if_true, id]
+  exact shiftPos_inv r
+
+example : Rect 3 (prep "vcf" [[Cell.text [99], Cell.int 6, Cell.text [65]]]) := by decide
+
+/-- **cutAt_flatten.** Cutting a table at increasing positions loses and duplicates nothing: the pieces put together
+are the table (from the first position on). -/
+theorem cutAt_flatten {α} (rows : List α) (prev : Nat) (cuts : List Nat)
+    (hs : List.Pairwise (· ≤ ·) (prev :: cuts)) : (cutAt rows prev cuts).flatten = rows.drop prev := by
+  induction cuts generalizing prev with
+  | nil => simp [cutAt]
+  | cons c cs ih =>
+    have hpc : prev ≤ c := (List.pairwise_cons.mp hs).1 c (by simp)
+    have hs' : List.Pairwise (· ≤ ·) (c :: cs) := (List.pairwise_cons.mp hs).2
+    simp only [cutAt, List.flatten_cons, ih c hs']
+    conv => rhs; rw [← List.take_append_drop c rows, List.drop_append]
+    congr 1
+    by_cases hlen : prev ≤ (rows.take c).length
+    · rw [Nat.sub_eq_zero_of_le hlen]; rfl
+    · have : rows.length < c := by
+        rw [List.length_take] at hlen
+        omega
+      rw [List.drop_eq_nil_of_le (by omega)]
+      simp
+
+example : (cutAt [1, 2, 3, 4, 5] 0 [0, 2, 2, 4]).flatten = [1, 2, 3, 4, 5] := by decide
 
 end C03
